@@ -5,7 +5,7 @@ import Obao.Proofs.RevokeTree
 namespace Obao.Revoke
 
 theorem inv_init : Inv St.init := by
-  refine ⟨⟨?_, ?_, ?_, ?_, ?_, ?_, ?_, ?_⟩, ?_, ?_, ?_, ?_, ?_, ?_, ?_⟩
+  refine ⟨⟨?_, ?_, ?_, ?_, ?_, ?_, ?_, ?_, ?_, ?_⟩, ?_, ?_, ?_, ?_, ?_, ?_, ?_⟩
   · intro p c h; cases h
   · intro p c h; cases h
   · intro c e p h hp
@@ -25,6 +25,12 @@ theorem inv_init : Inv St.init := by
       exact ⟨by simp [St.init], fun h0 => absurd rfl h0, fun _ => rfl⟩
     · cases h
   · intro t k h; cases h
+  · intro c k h; cases h
+  · intro x e h
+    simp only [St.init] at h
+    split at h
+    · cases h; rfl
+    · cases h
   · intro t l h; cases h
   · intro l t h; cases h
   · intro x e h
@@ -48,7 +54,7 @@ theorem inv_init : Inv St.init := by
     split at h
     · cases h
     · rename_i hx
-      exact ⟨by simp [St.init, hx], rfl, by simp [St.init, hx], fun _ => rfl, fun l e hl => by cases hl⟩
+      exact ⟨by simp [St.init, hx], rfl, by simp [St.init, hx], fun _ => ⟨rfl, rfl⟩, fun l e hl => by cases hl⟩
   · intro c e p h hp
     simp only [St.init] at h
     split at h
@@ -57,23 +63,71 @@ theorem inv_init : Inv St.init := by
   · intro k h; cases h
 
 
-/-- closed form of a successful `auth/token/create[-orphan]` by `r` -/
-def mkTok (r : Nat) (orphan : Bool) (sk : Nat) (s : St) : St :=
+theorem Inv.fresh {s : St} (hI : Inv s) : s.ids s.next = none := by
+  cases h : s.ids s.next with
+  | none => rfl
+  | some e => have := hI.fi.idsB s.next (by simp [h]); omega
+
+/-- closed form of a successful token creation: identity `n` (a fresh ordinal `n = next`, or — caller-chosen id —
+an identity that was used before and has no entry now), created by `r` -/
+def mkTokAt (r n : Nat) (orphan pfx : Bool) (sk : Nat) (s : St) : St :=
   { s with
-    next := s.next + 1,
-    skey := fun x => if x = s.next then sk else s.skey x,
-    acc := fun x => if x = s.next then true else s.acc x,
-    par := fun x y => if orphan = false ∧ x = r ∧ y = s.next then true else s.par x y,
-    ids := fun x => if x = s.next then some ⟨if orphan then none else some r, false⟩ else s.ids x,
-    tl := fun x => if x = s.next then some false else s.tl x,
-    cache := fun x => if x = s.next then some false else s.cache x }
+    next := if n = s.next then s.next + 1 else s.next,
+    skey := fun x => if n = s.next ∧ x = s.next then sk else s.skey x,
+    acc := fun x => if x = n then true else s.acc x,
+    par := fun x y => if orphan = false ∧ x = r ∧ y = n then true else s.par x y,
+    ids := fun x => if x = n then
+        some { parent := if orphan then none else some r, marked := false,
+               cubId := createCubId true pfx, pfx := pfx, nsRoot := true }
+      else s.ids x,
+    tl := fun x => if x = n then some false else s.tl x,
+    cache := fun x => if x = n then some false else s.cache x }
 
 theorem run_newTok (sk : Nat) (s : St) :
     run (newTok sk) s = (.ok s.next, { s with next := s.next + 1, skey := fun x => if x = s.next then sk else s.skey x }) := rfl
 
+theorem run_allocId (x sk : Nat) (s : St) :
+    run (allocId x sk) s = (.ok x, if x = s.next then
+      { s with next := s.next + 1, skey := fun y => if y = s.next then sk else s.skey y } else s) := by
+  unfold allocId
+  by_cases h : x = s.next <;> simp [run_io, exec, h]
+
+/-- `storeCommon` + `RegisterAuth` after the accessor write, from a state that differs from an `Inv` state `s`
+only in `next`, `skey` and `acc` -/
+theorem run_storeAndRegister {s : St} (hI : Inv s) (f r n : Nat) (orphan pfx : Bool) {e : TokEntry}
+    (hr : s.ids r = some e) (N : Nat) (K : Nat → Nat) (A : Nat → Bool) :
+    let σ : St := { s with next := N, skey := K, acc := A }
+    run (storeAndRegister (f+1) r n orphan pfx) σ =
+      (.ok (), { σ with
+        par := fun x y => if orphan = false ∧ x = r ∧ y = n then true else σ.par x y,
+        ids := fun x => if x = n then
+            some { parent := if orphan then none else some r, marked := false,
+                   cubId := createCubId true pfx, pfx := pfx, nsRoot := true }
+          else σ.ids x,
+        tl := fun x => if x = n then some false else σ.tl x,
+        cache := fun x => if x = n then some false else σ.cache x }) := by
+  intro σ
+  have hids : σ.ids = s.ids := rfl
+  have hcache : σ.cache = s.cache := rfl
+  unfold storeAndRegister
+  simp only [bind_eq, pure_eq]
+  cases orphan with
+  | true =>
+    simp only [Bool.not_true, Bool.false_eq_true, if_false, run_bind, run_putKey, St.putKey, run_cacheSet]
+    congr 1 <;> (apply St.ext' <;> simp)
+  | false =>
+    simp only [Bool.not_false, if_true]
+    rw [run_bind]
+    rw [run_lookup f r false σ (by
+      intro e' he' h0
+      rw [hcache, hI.cacheEq, hI.lease r e hr h0])]
+    simp only [lkRes, hids, hr, hI.unmarked r e hr, Bool.false_and, Bool.false_eq_true, if_false, run_putKey,
+      St.putKey, run_bind, run_cacheSet]
+    congr 1 <;> (apply St.ext' <;> simp)
+
 theorem run_create {s : St} (hI : Inv s) (f r : Nat) (orphan : Bool) (sk : Nat) :
     run ((Req.create r orphan sk).prog (f+1)) s =
-      if (s.ids r).isSome then (.ok (), mkTok r orphan sk s) else (.error .denied, s) := by
+      if (s.ids r).isSome then (.ok (), mkTokAt r s.next orphan true sk s) else (.error .denied, s) := by
   unfold Req.prog
   simp only [bind_eq, pure_eq]
   rw [run_bind, hI.run_auth]
@@ -89,123 +143,168 @@ theorem run_create {s : St} (hI : Inv s) (f r : Nat) (orphan : Bool) (sk : Nat) 
     simp only
     rw [run_bind, run_putKey]
     simp only [St.putKey]
-    unfold storeAndRegister
-    simp only [bind_eq, pure_eq]
-    cases orphan with
-    | true =>
-      simp only [Bool.not_true, Bool.false_eq_true, if_false, run_bind, run_putKey, St.putKey, run_cacheSet]
-      congr 1 <;> (apply St.ext' <;> simp [mkTok])
-    | false =>
-      simp only [Bool.not_false, if_true]
-      rw [run_bind]
-      rw [run_lookup f r false _ (by
-        intro e' he' h0
-        show s.cache r = some false
-        rw [hI.cacheEq, hI.lease r e hr h0])]
-      simp only [lkRes, hr, hI.unmarked r e hr, Bool.false_and, Bool.false_eq_true, if_false, run_putKey,
-        St.putKey, run_bind, run_cacheSet]
-      congr 1 <;> (apply St.ext' <;> simp [mkTok])
+    rw [run_storeAndRegister hI f r s.next orphan true hr]
+    congr 1
+    apply St.ext' <;> simp [mkTokAt]
 
-
-theorem Inv.fresh {s : St} (hI : Inv s) : s.ids s.next = none := by
-  cases h : s.ids s.next with
+theorem run_createId {s : St} (hI : Inv s) (f r x : Nat) (sk : Nat) (hx : x ≤ s.next) :
+    run ((Req.createId r x sk).prog (f+1)) s =
+      if (s.ids r).isSome then
+        (if (s.ids x).isSome then
+          (.error .invalid, if x = s.next then
+            { s with next := s.next + 1, skey := fun y => if y = s.next then sk else s.skey y } else s)
+         else (.ok (), mkTokAt r x false false sk s))
+      else (.error .denied, s) := by
+  unfold Req.prog
+  simp only [bind_eq, pure_eq]
+  rw [run_bind, hI.run_auth]
+  cases hr : s.ids r with
   | none => rfl
-  | some e => have := hI.fi.idsB s.next (by simp [h]); omega
+  | some e =>
+    simp only [Option.isSome_some, if_true]
+    rw [run_bind, hI.run_lookup, hr]
+    simp only
+    rw [run_bind, hI.run_sudoCheck, hr]
+    simp only [Option.isSome_some, Bool.not_true, Bool.false_eq_true, if_false]
+    rw [run_bind, run_allocId]
+    simp only
+    -- the duplicate check runs in the state after the allocation: same ids and cache
+    have hdup : ∀ σ : St, σ.ids = s.ids → σ.cache = s.cache →
+        run (lookup (f+1) x true) σ = (.ok (s.ids x), σ) := by
+      intro σ h1 h2
+      rw [run_lookup f x true σ (by
+        intro e' he' h0
+        rw [h1] at he'
+        rw [h2, hI.cacheEq, hI.lease x e' he' h0])]
+      simp only [lkRes, h1]
+      cases hq : s.ids x with
+      | none => rfl
+      | some q => simp [hI.unmarked x q hq]
+    by_cases hxn : x = s.next
+    · subst hxn
+      have hfresh := hI.fresh
+      simp only [if_true]
+      rw [run_bind, run_bindE, hdup { s with next := s.next + 1, skey := fun y => if y = s.next then sk else s.skey y } rfl rfl, hfresh]
+      simp only [run_ret, Bool.false_eq_true, if_false, Option.isSome_none]
+      rw [run_bind, run_putKey]
+      simp only [St.putKey]
+      rw [run_storeAndRegister hI f r s.next false false hr]
+      congr 1
+      apply St.ext' <;> simp [mkTokAt]
+    · simp only [hxn, if_false]
+      rw [run_bind, run_bindE, hdup s rfl rfl]
+      cases hq : s.ids x with
+      | some q => simp [run_ret, run_bind, Prog.fail]
+      | none =>
+        simp only [run_ret, Bool.false_eq_true, if_false, Option.isSome_none]
+        rw [run_bind, run_putKey]
+        simp only [St.putKey]
+        have := run_storeAndRegister hI f r x false false hr s.next s.skey (fun y => if y = x then true else s.acc y)
+        simp only at this
+        rw [this]
+        congr 1
+        apply St.ext' <;> simp [mkTokAt, hxn]
 
-theorem inv_mkTok {s : St} (hI : Inv s) (r : Nat) (orphan : Bool) (sk : Nat) (hr : (s.ids r).isSome) :
-    Inv (mkTok r orphan sk s) := by
-  have hrn : r < s.next := hI.fi.idsB r hr
-  have hfresh := hI.fresh
-  have hdn := hI.deadClean s.next hfresh
-  have hnopar : ∀ p c, s.par p c = true → p ≠ s.next ∧ c ≠ s.next := by
-    intro p c h
-    have := hI.fi.edge_lt p c h
-    omega
-  refine ⟨⟨?_, ?_, ?_, ?_, ?_, ?_, ?_, ?_⟩, ?_, ?_, ?_, ?_, ?_, ?_, ?_⟩
+theorem inv_mkTokAt {s : St} (hI : Inv s) (r n : Nat) (orphan pfx : Bool) (sk : Nat) (hr : (s.ids r).isSome)
+    (hn : n ≤ s.next) (hnone : s.ids n = none) (hrn : r < n) (hnopar : ∀ c, s.par n c = false) :
+    Inv (mkTokAt r n orphan pfx sk s) := by
+  have hrne : r ≠ n := by omega
+  have hnext : s.next ≤ (mkTokAt r n orphan pfx sk s).next ∧ n < (mkTokAt r n orphan pfx sk s).next := by
+    simp only [mkTokAt]; split <;> omega
+  have hdn := hI.deadClean n hnone
+  have hids : ∀ x, x ≠ n → (mkTokAt r n orphan pfx sk s).ids x = s.ids x := by
+    intro x hx; simp [mkTokAt, hx]
+  have hlive : ∀ x, (s.ids x).isSome → x ≠ n := by
+    intro x hx h; subst h; rw [hnone] at hx; cases hx
+  refine ⟨⟨?_, ?_, ?_, ?_, ?_, hI.fi.cubB, ?_, ?_, hI.fi.tixB, hI.fi.slIx⟩, ?_, ?_, ?_, ?_, ?_, ?_, hI.pendClean⟩
   · intro p c h
-    simp only [mkTok] at h ⊢
+    simp only [mkTokAt] at h
     split at h
-    · rename_i hh; obtain ⟨_, rfl, rfl⟩ := hh; omega
+    · rename_i hh; obtain ⟨_, rfl, rfl⟩ := hh; exact ⟨hrn, hnext.2⟩
     · have := hI.fi.edge_lt p c h; omega
   · intro p c h hp
-    simp only [mkTok] at h hp ⊢
+    simp only [mkTokAt] at h
     split at h
     · rename_i hh; obtain ⟨ho, rfl, rfl⟩ := hh
-      exact ⟨⟨if orphan = true then none else some p, false⟩, by simp, by simp [ho]⟩
-    · obtain ⟨hp1, hc1⟩ := hnopar p c h
-      simp only [hp1, if_false] at hp
-      obtain ⟨e, he, hpe⟩ := hI.fi.edge_live p c h hp
-      exact ⟨e, by simp [hc1, he], hpe⟩
+      exact ⟨⟨if orphan = true then none else some p, false, createCubId true pfx, pfx, true⟩, by simp [mkTokAt], by simp [ho]⟩
+    · by_cases hpn : p = n
+      · subst hpn; rw [hnopar c] at h; cases h
+      · rw [hids p hpn] at hp
+        obtain ⟨e, he, hpe⟩ := hI.fi.edge_live p c h hp
+        exact ⟨e, by rw [hids c (hlive c (by simp [he]))]; exact he, hpe⟩
   · intro c e p h hpe
-    simp only [mkTok] at h ⊢
-    split at h
-    · rename_i hc; subst hc
+    by_cases hc : c = n
+    · subst hc
+      simp only [mkTokAt, if_true] at h
       cases h
       cases orphan with
       | true => simp at hpe
-      | false => simp at hpe; subst hpe; simp
-    · have := hI.fi.entry_edge c e p h hpe
-      simp [this]
+      | false => simp at hpe; subst hpe; simp [mkTokAt]
+    · rw [hids c hc] at h
+      have := hI.fi.entry_edge c e p h hpe
+      simp [mkTokAt, this]
   · intro x hx
-    simp only [mkTok] at hx ⊢
-    split at hx
-    · omega
-    · have := hI.fi.idsB x hx; omega
+    by_cases hxn : x = n
+    · subst hxn; exact hnext.2
+    · rw [hids x hxn] at hx
+      have := hI.fi.idsB x hx; omega
   · intro x e h
-    simp only [mkTok] at h
-    split at h
-    · rename_i hx; subst hx
-      refine ⟨hI.pendClean _, fun _ => by simp [mkTok], fun h' => by simp [mkTok] at h'⟩
-    · rename_i hx
+    by_cases hxn : x = n
+    · subst hxn
+      exact ⟨hI.pendClean _, fun _ => by simp [mkTokAt], fun h' => by simp [mkTokAt] at h'⟩
+    · rw [hids x hxn] at h
       have ht := hI.fi.tok x e h
-      exact ⟨ht.pend, fun h0 => by simp [mkTok, hx]; exact ht.cache h0, by simp [mkTok, hx]; exact ht.tlc⟩
-  · exact hI.fi.cubB
-  · exact hI.fi.tixB
-  · exact hI.fi.slIx
+      exact ⟨ht.pend, fun h0 => by simp [mkTokAt, hxn]; exact ht.cache h0, by simp [mkTokAt, hxn]; exact ht.tlc⟩
+  · intro c k h
+    obtain ⟨y, ey, hy, hry⟩ := hI.fi.cubOwn c k h
+    exact ⟨y, ey, by rw [hids y (hlive y (by simp [hy]))]; exact hy, hry⟩
   · intro x e h
-    simp only [mkTok] at h
-    split at h
-    · cases h; rfl
-    · exact hI.unmarked x e h
+    by_cases hxn : x = n
+    · subst hxn
+      simp only [mkTokAt, if_true] at h
+      cases h; rfl
+    · rw [hids x hxn] at h; exact hI.fi.entryWf x e h
+  · intro x e h
+    by_cases hxn : x = n
+    · subst hxn
+      simp only [mkTokAt, if_true] at h
+      cases h; rfl
+    · rw [hids x hxn] at h; exact hI.unmarked x e h
   · intro x e h h0
-    simp only [mkTok] at h ⊢
-    split at h
-    · rename_i hx; simp [hx]
-    · rename_i hx; simp [hx]; exact hI.lease x e h h0
+    by_cases hxn : x = n
+    · subst hxn; simp [mkTokAt]
+    · rw [hids x hxn] at h
+      simp only [mkTokAt, hxn, if_false]; exact hI.lease x e h h0
   · intro x e h
-    simp only [mkTok] at h ⊢
-    split at h
-    · rename_i hx; simp [hx]
-    · rename_i hx; simp [hx]; exact hI.acc x e h
+    by_cases hxn : x = n
+    · subst hxn; simp [mkTokAt]
+    · rw [hids x hxn] at h
+      simp only [mkTokAt, hxn, if_false]; exact hI.acc x e h
   · intro x
-    simp only [mkTok]
+    simp only [mkTokAt]
     split
     · rfl
     · exact hI.cacheEq x
   · intro x h
-    simp only [mkTok] at h
-    split at h
-    · cases h
-    · rename_i hx
+    by_cases hxn : x = n
+    · subst hxn; simp [mkTokAt] at h
+    · rw [hids x hxn] at h
       have hd := hI.deadClean x h
-      exact ⟨by simp [mkTok, hx, h], by simp [mkTok, hx, hd.noLease], by simp [mkTok, hx, hd.noAcc],
+      exact ⟨by rw [hids x hxn]; exact h, by simp [mkTokAt, hxn, hd.noLease], by simp [mkTokAt, hxn, hd.noAcc],
         hd.noCub, hd.leases⟩
   · intro c e p h hpe
-    simp only [mkTok] at h ⊢
-    split at h
-    · cases h
+    by_cases hc : c = n
+    · subst hc
+      simp only [mkTokAt, if_true] at h
+      cases h
       cases orphan with
       | true => simp at hpe
       | false =>
         simp at hpe; subst hpe
-        have : r ≠ s.next := by omega
-        simp [this, hr]
-    · have := hI.parentLive c e p h hpe
-      split
-      · rfl
-      · exact this
-  · exact hI.pendClean
-
+        rw [hids r hrne]; exact hr
+    · rw [hids c hc] at h
+      have := hI.parentLive c e p h hpe
+      rw [hids p (hlive p this)]; exact this
 
 /-! ### renew-self, cubbyhole write, leased read, lookup-self, settle -/
 
@@ -232,8 +331,8 @@ theorem run_renew {s : St} (hI : Inv s) (f t : Nat) :
 
 theorem inv_renewTok {s : St} (hI : Inv s) (t : Nat) (ht : (s.ids t).isSome) : Inv (renewTok t s) := by
   obtain ⟨e, he⟩ := Option.isSome_iff_exists.mp ht
-  refine ⟨⟨hI.fi.edge_lt, hI.fi.edge_live, hI.fi.entry_edge, hI.fi.idsB, ?_, hI.fi.cubB, hI.fi.tixB, hI.fi.slIx⟩,
-    hI.unmarked, ?_, hI.acc, ?_, ?_, hI.parentLive, hI.pendClean⟩
+  refine ⟨⟨hI.fi.edge_lt, hI.fi.edge_live, hI.fi.entry_edge, hI.fi.idsB, ?_, hI.fi.cubB, hI.fi.cubOwn, hI.fi.entryWf,
+    hI.fi.tixB, hI.fi.slIx⟩, hI.unmarked, ?_, hI.acc, ?_, ?_, hI.parentLive, hI.pendClean⟩
   · intro x e' h
     have hx := hI.fi.tok x e' h
     refine ⟨hx.pend, ?_, ?_⟩
@@ -256,40 +355,74 @@ theorem inv_renewTok {s : St} (hI : Inv s) (t : Nat) (ht : (s.ids t).isSome) : I
     have hxt : x ≠ t := by intro h'; subst h'; have h2 : s.ids x = none := h; rw [he] at h2; cases h2
     exact ⟨h, by simp [renewTok, hxt, hd.noLease], hd.noAcc, hd.noCub, hd.leases⟩
 
-def cubbyTok (t k : Nat) (s : St) : St :=
-  { s with cub := fun x y => if x = t ∧ y = k then true else s.cub x y,
+def cubbyTok (c : CubKey) (k : Nat) (s : St) : St :=
+  { s with cub := fun x y => if x = c ∧ y = k then true else s.cub x y,
            kmax := if s.kmax ≤ k then k + 1 else s.kmax }
+
+theorem Inv.routerKey {s : St} (hI : Inv s) {t : Nat} {e : TokEntry} (he : s.ids t = some e) :
+    routerKey t e = some (ckey t e) := (destroyKey_eq_routerKey t e (hI.fi.entryWf t e he)).2
 
 theorem run_cubby {s : St} (hI : Inv s) (f t k : Nat) :
     run ((Req.cubby t k).prog (f+1)) s =
-      if (s.ids t).isSome then (.ok (), cubbyTok t k s) else (.error .denied, s) := by
+      match s.ids t with
+      | some e => (.ok (), cubbyTok (ckey t e) k s)
+      | none => (.error .denied, s) := by
   unfold Req.prog
   simp only [bind_eq]
-  rw [run_bind, hI.run_auth]
+  rw [run_bind, hI.run_authE]
   cases ht : s.ids t with
   | none => rfl
   | some e =>
-    simp only [Option.isSome_some, if_true]
+    simp only [hI.routerKey ht]
     rw [run_bind, run_getKey]; simp only
     rw [run_putKey]
     rfl
 
-theorem inv_cubbyTok {s : St} (hI : Inv s) (t k : Nat) (ht : (s.ids t).isSome) : Inv (cubbyTok t k s) := by
-  obtain ⟨e, he⟩ := Option.isSome_iff_exists.mp ht
-  refine ⟨⟨hI.fi.edge_lt, hI.fi.edge_live, hI.fi.entry_edge, hI.fi.idsB, ?_, ?_, hI.fi.tixB, hI.fi.slIx⟩,
-    hI.unmarked, hI.lease, hI.acc, hI.cacheEq, ?_, hI.parentLive, hI.pendClean⟩
+theorem run_cubRead {s : St} (hI : Inv s) (f t k : Nat) :
+    (run ((Req.cubRead t k).prog (f+1)) s).2 = s := by
+  unfold Req.prog
+  simp only [bind_eq, pure_eq]
+  rw [run_bind, hI.run_authE]
+  cases ht : s.ids t with
+  | none => rfl
+  | some e =>
+    simp only [hI.routerKey ht]
+    rw [run_bind, run_getKey]
+    rfl
+
+theorem inv_cubbyTok {s : St} (hI : Inv s) (t k : Nat) {e : TokEntry} (he : s.ids t = some e) :
+    Inv (cubbyTok (ckey t e) k s) := by
+  refine ⟨⟨hI.fi.edge_lt, hI.fi.edge_live, hI.fi.entry_edge, hI.fi.idsB, ?_, ?_, ?_, hI.fi.entryWf, hI.fi.tixB,
+    hI.fi.slIx⟩, hI.unmarked, hI.lease, hI.acc, hI.cacheEq, ?_, hI.parentLive, hI.pendClean⟩
   · intro x e' h
     have hx := hI.fi.tok x e' h
     exact ⟨hx.pend, hx.cache, hx.tlc⟩
-  · intro t' k' h
+  · intro c k' h
     simp only [cubbyTok] at h ⊢
     split at h
     · rename_i hh; obtain ⟨_, rfl⟩ := hh; split <;> omega
-    · have := hI.fi.cubB t' k' h; split <;> omega
+    · have := hI.fi.cubB c k' h; split <;> omega
+  · intro c k' h
+    simp only [cubbyTok] at h
+    split at h
+    · rename_i hh; obtain ⟨rfl, _⟩ := hh
+      exact ⟨t, e, he, hI.routerKey he⟩
+    · exact hI.fi.cubOwn c k' h
   · intro x h
-    have hd := hI.deadClean x h
-    have hxt : x ≠ t := by intro h'; subst h'; have h2 : s.ids x = none := h; rw [he] at h2; cases h2
-    exact ⟨h, hd.noLease, hd.noAcc, fun k' => by simp [cubbyTok, hxt, hd.noCub k'], hd.leases⟩
+    have hx : s.ids x = none := h
+    have hd := hI.deadClean x hx
+    have hxt : x ≠ t := by intro h'; subst h'; rw [he] at hx; cases hx
+    have hck : ckey t e ≠ .cid x ∧ ckey t e ≠ .salted x := by
+      unfold ckey; split <;> constructor <;> intro h' <;> cases h' <;> exact hxt rfl
+    refine ⟨h, hd.noLease, hd.noAcc, fun k' => ?_, hd.leases⟩
+    simp only [cubbyTok]
+    constructor
+    · split
+      · rename_i hh; exact absurd hh.1.symm hck.1
+      · exact (hd.noCub k').1
+    · split
+      · rename_i hh; exact absurd hh.1.symm hck.2
+      · exact (hd.noCub k').2
 
 def leaseTok (t lk : Nat) (s : St) : St :=
   { s with nextL := s.nextL + 1, lkey := fun x => if x = s.nextL then lk else s.lkey x,
@@ -308,8 +441,8 @@ theorem run_lease {s : St} (hI : Inv s) (f t lk : Nat) :
 
 theorem inv_leaseTok {s : St} (hI : Inv s) (t lk : Nat) (ht : (s.ids t).isSome) : Inv (leaseTok t lk s) := by
   obtain ⟨e, he⟩ := Option.isSome_iff_exists.mp ht
-  refine ⟨⟨hI.fi.edge_lt, hI.fi.edge_live, hI.fi.entry_edge, hI.fi.idsB, ?_, hI.fi.cubB, ?_, ?_⟩,
-    hI.unmarked, hI.lease, hI.acc, hI.cacheEq, ?_, hI.parentLive, hI.pendClean⟩
+  refine ⟨⟨hI.fi.edge_lt, hI.fi.edge_live, hI.fi.entry_edge, hI.fi.idsB, ?_, hI.fi.cubB, hI.fi.cubOwn, hI.fi.entryWf,
+    ?_, ?_⟩, hI.unmarked, hI.lease, hI.acc, hI.cacheEq, ?_, hI.parentLive, hI.pendClean⟩
   · intro x e' h
     have hx := hI.fi.tok x e' h
     exact ⟨hx.pend, hx.cache, hx.tlc⟩
@@ -346,8 +479,8 @@ theorem run_lookupSelf {s : St} (hI : Inv s) (f t : Nat) :
     rfl
 
 theorem inv_settle {s : St} (hI : Inv s) : Inv s.settle := by
-  refine ⟨⟨hI.fi.edge_lt, hI.fi.edge_live, hI.fi.entry_edge, hI.fi.idsB, ?_, hI.fi.cubB, ?_, ?_⟩,
-    hI.unmarked, hI.lease, hI.acc, hI.cacheEq, ?_, hI.parentLive, hI.pendClean⟩
+  refine ⟨⟨hI.fi.edge_lt, hI.fi.edge_live, hI.fi.entry_edge, hI.fi.idsB, ?_, hI.fi.cubB, hI.fi.cubOwn, hI.fi.entryWf,
+    ?_, ?_⟩, hI.unmarked, hI.lease, hI.acc, hI.cacheEq, ?_, hI.parentLive, hI.pendClean⟩
   · intro x e' h
     have hx := hI.fi.tok x e' h
     exact ⟨hx.pend, hx.cache, hx.tlc⟩
